@@ -912,6 +912,16 @@ func processFile(dir, fname string) codec {
 	return c
 }
 
+func writeIfChanged(dst, content string) bool {
+	if old, err := os.ReadFile(dst); err == nil && string(old) == content {
+		return false
+	}
+	if err := os.WriteFile(dst, []byte(content), 0o644); err != nil {
+		fail("%v", err)
+	}
+	return true
+}
+
 func main() {
 	out := flag.String("out", "/verif/lean", "lean project root")
 	flag.StringVar(&repo, "repo", "/repo", "repository root")
@@ -932,19 +942,23 @@ func main() {
 	if len(cs) != 29 {
 		fail("expected 29 generated codecs, found %d", len(cs))
 	}
-	var b strings.Builder
+	// two modules: definitions (imported by the drivers, must always build) and obligations
+	var b, th strings.Builder
 	b.WriteString("/- AUTOGENERATED by tools/extract/codecgen from the *_skyencoder.go files and the Go struct declarations.\n")
-	b.WriteString("   Regenerated on every `./check C21`; do not edit. -/\n")
-	b.WriteString("import Sky.Codec.Prog\nimport Sky.Codec.Schemas\nnamespace Sky.Gen.Codecs\nopen Sky.Codec\n\n")
+	b.WriteString("   Regenerated on every `./check C21`; do not edit. Definitions only; the obligations are in CodecsThm.lean. -/\n")
+	b.WriteString("import Sky.Codec.Prog\nnamespace Sky.Gen.Codecs\nopen Sky.Codec\n\n")
+	th.WriteString("/- AUTOGENERATED by tools/extract/codecgen: the per-file refinement obligations of C21. Do not edit. -/\n")
+	th.WriteString("import Sky.Gen.Codecs\nimport Sky.Codec.Schemas\nnamespace Sky.Gen.Codecs\nopen Sky.Codec\n\n")
 	for _, c := range cs {
 		fmt.Fprintf(&b, "/-! ### %s — %s (sha256 %s) -/\n", c.goType, c.file, c.sha)
 		fmt.Fprintf(&b, "def ty_%s : Ty :=\n  %s\n", c.id, c.ty)
 		fmt.Fprintf(&b, "def dec_%s : DProg :=\n  %s\n", c.id, c.dec)
 		fmt.Fprintf(&b, "def enc_%s : EProg :=\n  %s\n", c.id, c.enc)
 		fmt.Fprintf(&b, "def size_%s : SProg :=\n  %s\n", c.id, c.size)
-		fmt.Fprintf(&b, "def prog_%s : GenCodec := ⟨dec_%s, enc_%s, size_%s⟩\n", c.id, c.id, c.id, c.id)
-		fmt.Fprintf(&b, "theorem gen_%s_refines : denote prog_%s = refCodec ty_%s := by decide\n", c.id, c.id, c.id)
-		fmt.Fprintf(&b, "theorem ty_%s_eq : ty_%s = Schemas.%s := by decide\n\n", c.id, c.id, c.stable)
+		fmt.Fprintf(&b, "def prog_%s : GenCodec := ⟨dec_%s, enc_%s, size_%s⟩\n\n", c.id, c.id, c.id, c.id)
+		fmt.Fprintf(&th, "/-- %s (%s) -/\n", c.goType, c.file)
+		fmt.Fprintf(&th, "theorem gen_%s_refines : denote prog_%s = refCodec ty_%s := by decide\n", c.id, c.id, c.id)
+		fmt.Fprintf(&th, "theorem ty_%s_eq : ty_%s = Schemas.%s := by decide\n\n", c.id, c.id, c.stable)
 	}
 	b.WriteString("/-! ### schemas of types without a generated codec that other models use -/\n")
 	for _, e := range extraSchemas {
@@ -952,7 +966,7 @@ func main() {
 		t := schemaOf(&ast.Ident{Name: e[1]}, pk, nil, nil)
 		id := filepath.Base(e[0]) + "_" + e[1]
 		fmt.Fprintf(&b, "def ty_%s : Ty :=\n  %s\n", id, leanTy(t))
-		fmt.Fprintf(&b, "theorem ty_%s_eq : ty_%s = Schemas.%s := by decide\n", id, id, e[1])
+		fmt.Fprintf(&th, "theorem ty_%s_eq : ty_%s = Schemas.%s := by decide\n", id, id, e[1])
 	}
 	b.WriteString("\n/-- all generated codecs: (name, schema, program) -/\ndef all : List (String × Ty × GenCodec) := [\n")
 	for i, c := range cs {
@@ -963,13 +977,12 @@ func main() {
 		fmt.Fprintf(&b, "  (%q, ty_%s, prog_%s)%s\n", c.id, c.id, c.id, sep)
 	}
 	b.WriteString("]\n\nend Sky.Gen.Codecs\n")
+	th.WriteString("\nend Sky.Gen.Codecs\n")
+	writeIfChanged(filepath.Join(*out, "Sky/Gen/CodecsThm.lean"), th.String())
 	dst := filepath.Join(*out, "Sky/Gen/Codecs.lean")
-	if old, err := os.ReadFile(dst); err == nil && string(old) == b.String() {
+	if !writeIfChanged(dst, b.String()) {
 		fmt.Printf("codecgen: %d codecs, %s unchanged\n", len(cs), dst)
 		return
-	}
-	if err := os.WriteFile(dst, []byte(b.String()), 0o644); err != nil {
-		fail("%v", err)
 	}
 	fmt.Printf("codecgen: %d codecs, wrote %s\n", len(cs), dst)
 }
